@@ -153,6 +153,12 @@ type Host struct {
 	Used   uint64
 	Logs   []string
 	Events []string
+	// Memory gauge (only installed by Run when MemLimit > 0 or RecordMem): MemLimit = hard limit on the
+	// accumulated amount (0 = none); MemTotals = the accumulated amount after every MeterMemory call.
+	MemLimit  uint64
+	MemUsed   uint64
+	RecordMem bool
+	MemTotals []uint64
 	// RecordSteps: record `s` events (needed by the exec stream; off for fault enumeration noise)
 	RecordSteps bool
 	// RecordAll: also record the callbacks that are pure queries (c:...) — default true
@@ -259,6 +265,23 @@ func (h *Host) MeterComputation(usage common.ComputationUsage) error {
 	h.Used += usage.Intensity
 	if h.Limit > 0 && h.Used > h.Limit {
 		return LimitExceeded{Limit: h.Limit}
+	}
+	return nil
+}
+
+// MemLimitExceeded is returned by MeterMemory when the memory limit is reached.
+type MemLimitExceeded struct{ Limit uint64 }
+
+func (e MemLimitExceeded) Error() string { return fmt.Sprintf("memory limit %d exceeded", e.Limit) }
+
+// MeterMemory: the memory gauge (common.MemoryGauge).
+func (h *Host) MeterMemory(usage common.MemoryUsage) error {
+	h.MemUsed += usage.Amount
+	if h.RecordMem {
+		h.MemTotals = append(h.MemTotals, h.MemUsed)
+	}
+	if h.MemLimit > 0 && h.MemUsed > h.MemLimit {
+		return MemLimitExceeded{Limit: h.MemLimit}
 	}
 	return nil
 }
